@@ -3951,7 +3951,9 @@ func (a *Association) popPendingDataChunksToSend( //nolint:cyclop,gocognit
 		}
 	}
 
-	if a.blockWrite && len(chunks) > 0 && a.pendingQueue.size() == 0 {
+	// A stream reset marker popped on its own also drains the queue: it may have
+	// been queued behind DATA that left as a zero window probe.
+	if a.blockWrite && (len(chunks) > 0 || len(sisToReset) > 0) && a.pendingQueue.size() == 0 {
 		a.log.Tracef("[%s] all pending data have been sent, notify writable", a.name)
 		a.notifyBlockWritable()
 	}
